@@ -37,16 +37,27 @@ func (g *customGen[V]) value(t *T) V {
 	return find(g.maybeValue, t, small)
 }
 
-func (g *customGen[V]) maybeValue(t *T) (V, bool) {
+func (g *customGen[V]) maybeValue(t *T) (v V, ok bool) {
 	t = newT(t.tb, t.s, flags.debug, nil)
 	defer t.failOnError() // non-fatal failures signalled on the inner T should not be lost
-	defer t.cleanup()
 
 	defer func() {
-		if r := recover(); r != nil {
-			if _, ok := r.(invalidData); !ok {
-				panic(r)
-			}
+		r := recover()
+		_, skipped := r.(invalidData)
+		err := t.cleanup()
+
+		// a cleanup function that panics decides the outcome, except that skipping
+		// in a cleanup function does not hide a failure of the generator function
+		switch {
+		case err != nil && !err.isInvalidData():
+			panic(err)
+		case r != nil && !skipped:
+			panic(r)
+		case err != nil:
+			panic(err.data)
+		case skipped:
+			var zero V
+			v, ok = zero, false
 		}
 	}()
 
